@@ -299,3 +299,66 @@ def _atomic_add(X, ins, argv):
     store_lvalue(X.V, X.heap, lv, v)
     X.heap.set(('ghost', 'atomic_ops', I), X.heap.get(('ghost', 'atomic_ops', I)) + 1)
     return [v]
+
+
+# ---------------------------------------------------------------------- sort
+def _slice_behind_iface(X, ins, argidx=0):
+    """the slice value that was boxed into the interface argument (sort.Slice(x any, ...))"""
+    from .modset import find_def
+    a = ins['args'][argidx]
+    if a['k'] != 'reg':
+        return None, None
+    d = find_def(X.fn, a['name'])
+    if d is None or d['op'] != 'MakeInterface':
+        return None, None
+    return X.term(d['x']), d['x']['type']
+
+
+def _permute_in_place(X, s, ty):
+    """trusted: the elements of s[0:len) are permuted (every new element is an old element and vice versa)"""
+    w = X.w
+    S = w.Slice
+    el = w.prog.under(ty)[1]['elem']
+    key = ('el', el)
+    E = X.heap.get(key)
+    A = w.fresh('sorted', z3.ArraySort(I, w.sort(el)))
+    old = E[S.arr(s)]
+    j = z3.Const('so_j', I)
+    k = z3.Const('so_k', I)
+    ixf = w.uf('ix', I, I, I)
+    w.ix_used = True
+    perm = w.fresh('perm', z3.ArraySort(I, I))
+    inv = w.fresh('perminv', z3.ArraySort(I, I))
+    n = S.len(s)
+    off = S.off(s)
+    X.hyp(z3.ForAll([j], z3.Implies(z3.And(j >= 0, j < n), z3.And(perm[j] >= 0, perm[j] < n, inv[perm[j]] == j,
+                                                                 A[ixf(off, j)] == old[ixf(off, perm[j])])), patterns=[A[ixf(off, j)]]))
+    X.hyp(z3.ForAll([k], z3.Implies(z3.And(k >= 0, k < n), z3.And(inv[k] >= 0, inv[k] < n, perm[inv[k]] == k)), patterns=[inv[k]]))
+    # positions outside the slice window keep their value
+    p = z3.Const('so_p', I)
+    X.hyp(z3.ForAll([p], z3.Implies(z3.Or(p < off, p >= off + n), A[p] == old[p]), patterns=[A[p]]))
+    nh = X.V.fresh_heap_const(key, X.tag + 'sort')
+    X.hyp(nh == z3.Store(E, S.arr(s), A))
+    X.heap.set(key, nh)
+
+
+@ext('sort.Slice', 'sort.SliceStable')
+def _sort_slice(X, ins, argv):
+    s, ty = _slice_behind_iface(X, ins)
+    if s is None:
+        raise OutOfSubset('sort.Slice on a value that is not a freshly boxed slice')
+    _permute_in_place(X, s, ty)
+    return []
+
+
+@ext('sort.Strings', 'sort.Ints', 'sort.Float64s')
+def _sort_basic(X, ins, argv):
+    _permute_in_place(X, argv[0], ins['args'][0]['type'])
+    return []
+
+
+def _sort_mod(V):
+    return set()
+
+
+EXT['modfn:sort.Slice'] = True
